@@ -8,6 +8,7 @@ once, in order, with which device-type context, how they are paired and how
 subscribers are served.
 """
 import dali.command
+from sim.cmds import decode as _decode
 import dali.frame
 from dali.gear.general import EnableDeviceType
 
@@ -84,7 +85,7 @@ def reference(reports, dev_inst_map=None, end_us=None):
                     emit(t, pending.cmd, pending.cmd.response(None), False,
                          "query-resolved-by-next-frame")
                 pending = None
-            cmd = dali.command.from_frame(f, devicetype=dt, dev_inst_map=dev_inst_map)
+            cmd = _decode(f, dt, dev_inst_map)
             if dt and not cmd.devicetype:
                 stats["dt-context-expired"] = stats.get("dt-context-expired", 0) + 1
             dt = cmd.param if isinstance(cmd, EnableDeviceType) else 0
